@@ -45,6 +45,12 @@ META = {
         "the link table is reciprocal (C17) - only used to know that both axes carry connections when a swapped link exists",
         "halo corner cells are excluded (C12 covers determinism there)",
     ],
+    "bounded_standins": [
+        "native-table[bounded]: whole reciprocal tables (periodic rings of 1-3 faces on either axis; 10 / 40 random tables over 2-5 faces with reversed, axis-swapping "
+        "and self links) through the real constructor, real xarray and real pad, scalar and both vector components, 4 x 4 faces: every non-corner cell of every "
+        "face against the C05 specification. Stands in for what the generic-face proof cannot see by construction: state carried between faces of the loop, "
+        "coinciding links of one face, self links. Never counted as proved.",
+    ],
 }
 
 LINK_KINDS = [("same", False), ("same", True), ("swap", False), ("swap", True)]
@@ -164,6 +170,7 @@ def structures(tier, seed):
     out.append(mk(None, {("X", 1): ("swap", False)}, ("X",), rules_ff, canary="no-mirror"))
     out.append(mk("X", {("X", 0): ("same", True)}, ("X",), rules_ff, canary="no-sign"))
     out.append(mk("Y", {("X", 1): ("swap", False)}, ("X",), rules_ff, canary="wrong-partner"))
+    out += native_table_structures(tier, seed)
     seen = {}
     for s in out:
         seen.setdefault(s["sid"], s)
@@ -316,7 +323,65 @@ def expected(s, b, out, canary=None):
     return obs
 
 
+def native_table_structures(tier, seed):
+    """[bounded] whole reciprocal tables on the real code: covers what the generic-face rule cannot see by construction
+    (state carried from one face of the loop to the next, links of one face that coincide, self links)"""
+    import random
+    out = []
+    for F in (1, 2, 3):
+        for ax in ("X", "Y"):
+            out.append({"part": "native-table", "sid": f"native-table[bounded];ring;F={F};axis={ax}", "table": "ring", "F": F, "axis": ax})
+    rng = random.Random(1000 + int(seed))
+    for k in range(40 if tier == "thorough" else 10):
+        out.append({"part": "native-table", "sid": f"rnd:native-table[bounded];{k}", "table": "random", "F": rng.choice((2, 3, 3, 4, 5)), "rseed": rng.randrange(10 ** 6)})
+    return out
+
+
+def run_native_table(s):
+    import random
+    import time
+    from harness import native_pad as NP
+    t0 = time.time()
+    rng = random.Random(s.get("rseed", 0))
+    if s["table"] == "ring":
+        table = NP.ring_table(s["F"], s["axis"])
+    else:
+        table = NP.random_table(rng, s["F"])
+    conn = sorted({a for d in table.values() for a in d})
+    bad, ncmp, nrun = [], 0, 0
+    wsets = [{"X": (1, 1), "Y": (1, 1)}, {"X": (2, 1), "Y": (1, 2)}, {"X": (0, 2), "Y": (2, 0)}]
+    rsets = [{"X": "fill", "Y": "extend"}, {"X": "extend", "Y": "periodic"}, {"X": "periodic", "Y": "fill"}]
+    for kind in (None, "X", "Y"):
+        for k in range(2):
+            Wv = dict(wsets[rng.randrange(3)])
+            if s["table"] == "ring":
+                Wv = {s["axis"]: Wv[s["axis"]]}
+            rules = rsets[rng.randrange(3)]
+            extra = ("none", "before", "after")[rng.randrange(3)]
+            try:
+                mism, n = NP.check_table(table, kind, Wv, rules, N=4, extra=extra)
+            except Exception as e:  # noqa
+                import traceback
+                return {"sid": s["sid"], "crash": f"native table harness: {type(e).__name__}: {e}", "tb": traceback.format_exc(limit=6), "obligations": [], "paths": 0, "queries": 0, "solver_time": 0.0}
+            ncmp += n
+            nrun += 1
+            if mism:
+                bad.append({"table": {str(f): {a: [None if l is None else list(l) for l in lr] for a, lr in d.items()} for f, d in table.items()}, "kind": kind, "widths": {a: list(v) for a, v in Wv.items()},
+                            "rules": rules, "extra": extra, "mismatches": mism[:4]})
+                break
+        if bad:
+            break
+    rec = {"fn": "padding.pad[bounded, real xarray]", "clause": "every-non-corner-cell-of-every-face-is-the-documented-cell", "status": "failed" if bad else "proved", "time": time.time() - t0,
+           "detail": f"{nrun} pad calls, {ncmp} cells compared" if not bad else bad[0]["mismatches"][0]}
+    if bad:
+        rec["witness"] = {"part": "native-table", "case": bad[0]}
+    return {"sid": s["sid"], "obligations": [rec], "paths": 0, "queries": 0, "solver_time": 0.0, "engine_errors": [], "covers": {"native-table": 1},
+            "counts": {"bounded_standin_evaluations": nrun, "bounded_cells_compared": ncmp}}
+
+
 def run_structure(s):
+    if s.get("part") == "native-table":
+        return run_native_table(s)
     mods = util.xgcm_modules()
     P = mods["padding"]
     canary = s.get("canary")
@@ -384,4 +449,11 @@ def replay(ob):
     xgcm.padding.pad with the specification evaluated on numbers"""
     from harness import native_pad
 
+    wit = ob.get("witness") or {}
+    if wit.get("part") == "native-table":
+        c = wit["case"]
+        table = {int(f): {a: tuple(None if l is None else (l[0], l[1], bool(l[2])) for l in lr) for a, lr in d.items()} for f, d in c["table"].items()}
+        mism, n = native_pad.check_table(table, c["kind"], {a: tuple(v) for a, v in c["widths"].items()}, c["rules"], N=4, extra=c["extra"])
+        head = f"real Grid / pad on the table {table}, input {'scalar' if c['kind'] is None else 'vector component ' + c['kind']}, widths {c['widths']}, rules {c['rules']}"
+        return {"confirmed": bool(mism), "text": "\n".join([head] + (["REAL CODE DISAGREES WITH THE SPECIFICATION:"] + mism[:8] if mism else ["agrees natively"]))}
     return native_pad.replay_face(ob)
